@@ -25,22 +25,22 @@ def main(tier, replay):
     chk = vlib.Check(PROP, tier, level="proof")
     audit = vlib.lean_gate(chk, PROP)
     tie_t = gen_gate.gate(chk, kernels=["det1", "det2", "det2vt", "ax_pos_num"])
-    stats = vlib.run_differential(chk, PROP, "c01_geometry", tier, ctx_prefixes=("cfg", "cfgge"), compare=compare)
+    stats = vlib.run_differential(chk, PROP, "c01_geometry", tier, sanitize=True, ctx_prefixes=("cfg", "cfgge"), compare=compare)
     vlib.standard_coverage(chk, stats,
-        "real ProjDataInfoCylindricalNoArcCorr built by construct_proj_data_info (ProjDataInfoCTI) and by ProjDataInfo::ProjDataInfoGE for 3 fixed + 45 generated small "
+        "real ProjDataInfoCylindricalNoArcCorr built by construct_proj_data_info (ProjDataInfoCTI) and by ProjDataInfo::ProjDataInfoGE for 3 fixed + 60 generated small "
         "scanners (thorough: 300; N even, 1..9 rings, span 1/odd/even or GE, max_delta incl. the refused values, view mashing = every divisor, odd TOF mashing, 1 in 6 TOF configurations with an even factor), "
-        "ProjDataInfoBlocksOnCylindricalNoArcCorr / ProjDataInfoGenericNoArcCorr (crystal map file) on 14 generated block scanners (thorough: 60; every span / max_delta; "
+        "ProjDataInfoBlocksOnCylindricalNoArcCorr / ProjDataInfoGenericNoArcCorr (crystal map file) on 18 generated block scanners (thorough: 60; every span / max_delta; "
         "a construction failure is an oracle failure; view mashing must be refused) + SAFIR, and predefined scanners (6; thorough 12 x 3) with seeded span / GE / max_delta / "
         "view mashing / odd TOF mashing: ALL (view,tang)->detectors, ALL ordered detector pairs (strided for N>128 in quick), ALL ring pairs and ALL (segment,axial) lists, "
         "a seeded sample of full detector-position pairs/bins (pairs<->bin, full lists and counts, spatial lists and counts with ignore_non_spatial_dimensions=true incl. TOF data, "
-        "uncompressed inverse on every single-ring-difference segment); HISTORIES on every generated cylindrical configuration (6 steps, thorough 8; on the object or on a clone with the "
+        "uncompressed inverse on every single-ring-difference segment); HISTORIES on every generated cylindrical configuration (8 steps, thorough 10; on the object or on a clone with the "
         "original re-checked): reduce_segment_range (symmetric and arbitrary), set_min/max_ring_difference (shrink, grow into free ring differences, min>max), "
         "set_min/max_axial_pos_num, set_num_tangential_poss, set_min/max_tangential_pos_num, set_num_views after the lazy tables were built, then the stored sampling, the "
         "refusal of the rebuild (error() iff min>max ring difference or odd axial-range sum of a compressed segment; answers of the error state; repair), ALL ring pairs, ALL "
         "(segment,axial) lists, all ordered detector pairs and a bin sample again; every answer compared with the Lean model (CylState: setters + rebuilt tables; WFb / WFp hypothesis "
         "vs the implementation's ring-pair consistency; `wfh`: WFp => consistent required, see compare()); oracle: exchange symmetry, per-(view,tang) multiplicity on the current "
         "tangential range, ring-pair partition on the in-range (segment,axial) positions (out-of-range assignments only for segments a setter touched), bin list exactness, "
-        "spatial list exactness, refusals, on the implementation.")
+        "spatial list exactness, refusals, on the implementation; the harness (with the inline accessors of the lazy tables) runs under ASan+UBSan.")
     chk.coverage["tie_T_translator"] = tie_t
     chk.assumptions += ["float computation of m_offset / ax_pos_num_offset replaced by exact integer arithmetic",
                         "32-bit overflow not modelled",
